@@ -492,6 +492,7 @@ def _task_aftermath(task):
     did in the fresh process"""
     from txdbus import message as M
     part, nparts = task
+    meter.trace_allocations()
     res = core.Result()
     goods = _good_messages()
     fresh = [_summary(g) for g in goods]
@@ -511,12 +512,32 @@ def _task_aftermath(task):
     for tag, raw in fam[part::nparts]:
         res.count('states')
         res.count('nontrivial')
-        for k in range(70):
-            res.count('transitions')
-            try:
-                M.parseMessage(raw, [3, 4])
-            except Exception:
-                pass
+        import gc
+        import tracemalloc
+
+        def present(n):
+            for _ in range(n):
+                res.count('transitions')
+                try:
+                    M.parseMessage(raw, [3, 4])
+                except Exception:
+                    pass
+        present(20)
+        gc.collect()
+        held0 = tracemalloc.get_traced_memory()[0]
+        present(100)
+        gc.collect()
+        held1 = tracemalloc.get_traced_memory()[0]
+        if held1 - held0 > 4096:
+            res.violation('%s/aftermath/retained/%s' % (PROP,
+                                                       tag.split(':')[0]),
+                          'after 20 presentations of a hostile message '
+                          '(family %s, %d bytes) the process holds %d bytes; '
+                          'after 100 more, %d: every rejection leaves about '
+                          '%d bytes behind' % (tag, len(raw), held0, held1,
+                                               (held1 - held0) // 100),
+                          {'part': 'aftermath'}, size=len(raw))
+            break
         # through connections as well
         from mcx.checks import c04
         for k in range(3):
@@ -817,7 +838,8 @@ def run(ctx):
         'every nesting shape, nesting depth 32..254, unterminated '
         'containers, lying lengths on 20 kB%s inputs. The same bytes go '
         'through BasicDBusProtocol.dataReceived. Aftermath: each family '
-        'presented 70 times, then valid messages (40 nested variants, 31 '
+        'presented 120 times (what the process holds after 20 and after 120 '
+        'presentations must not differ by more than 4 KiB), then valid messages (40 nested variants, 31 '
         'arrays of 31 structs, the base messages) decode as in the fresh '
         'process. state = distinct input; '
         'transition = one parse/deliver call'
